@@ -776,3 +776,9 @@ canary('c06-per-call-bufreader', 'C06', 'crates/edp_client/src/framing.rs',
 canary('c05-per-call-bufreader', 'C05', 'crates/edp_client/src/framing.rs',
        "    pub async fn read_framed<R: AsyncRead + Unpin>(&self, reader: &mut R) -> io::Result<Vec<u8>> {\n",
        "    pub async fn read_framed<R: AsyncRead + Unpin>(&self, reader: &mut R) -> io::Result<Vec<u8>> {\n        let mut reader = tokio::io::BufReader::new(reader);\n", 'local-reader')
+canary('c10-fun-pid-inline', 'C10', ENCF, "    encode_pid_impl(&mut temp_buf, &fun.pid, cache)?;\n",
+       "    temp_buf.put_u8(NEW_PID_EXT);\n    encode_atom_impl(&mut temp_buf, &fun.pid.node, cache)?;\n    temp_buf.put_u32(fun.pid.id);\n    temp_buf.put_u32(fun.pid.serial);\n    temp_buf.put_u32(fun.pid.creation);\n",
+       'inline-identifier-tag')
+canary('c10-term-cmp-pid-no-serial', 'C10', 'crates/erltf/src/term.rs', "                    .then_with(|| a.id.cmp(&b.id))\n                    .then_with(|| a.serial.cmp(&b.serial))\n",
+       "                    .then_with(|| a.id.cmp(&b.id))\n", 'OwnedTerm_as_core::cmp::Ord>::cmp:Pid:fields')
+canary('c10-term-cmp-self', 'C10', 'crates/erltf/src/borrowed.rs', "a.serial.cmp(&b.serial)", "a.serial.cmp(&a.serial)", 'SELFCMP')
